@@ -57,7 +57,7 @@ func selftestDeterminism(props []string) int {
 					out := filepath.Join(s.dir, fmt.Sprintf("st-%s-%d-%d.json", p, sd, v))
 					env := []string{"GOMAXPROCS=" + procs[v]}
 					if spec.quick.race {
-						env = append(env, "GORACE=halt_on_error=0 exitcode=66 history_size=7 log_path="+filepath.Join(s.dir, "race", fmt.Sprintf("st%d-%d", sd, v)))
+						env = append(env, "GORACE=halt_on_error=0 exitcode=66 history_size=7 atexit_sleep_ms=0 log_path="+filepath.Join(s.dir, "race", fmt.Sprintf("st%d-%d", sd, v)))
 					}
 					args := []string{"batch", "-prop", p, "-tier", "quick", "-seed", fmt.Sprint(1000 + sd), "-from", "0", "-to", fmt.Sprint(runs), "-out", out, "-replaydir", filepath.Join(s.dir, "replays")}
 					args = append(args, spec.quick.extra...)
